@@ -216,6 +216,9 @@ def make_kv(npairs):
     return fn
 
 
+COMMENT_MARKERS = ["#", ";", "//", "--", "!", "$", "|", ".", "*", "?", "(", "REM "]
+
+
 def make_misc():
     def fn(en):
         which = en.choice("which", 3)
@@ -224,16 +227,26 @@ def make_misc():
             body = stripped_cell(en, "body", 2)
             if len(body) == 0:
                 raise core.Abort()
-            en.assume(f_not(f_contains(body, "#")))
-            lines = ["# full comment", "", cat("  ", body, "  # trailing"), "   ", cat(body, "#x")]
-            case = lambda mv: {"kind": "active", "lines": [mv.str(x) for x in lines], "body": mv.str(body)}  # noqa
+            # the comment marker is the caller's choice (parsers pass ';', '//', '--', '!', ... ; any text is admitted)
+            marker = COMMENT_MARKERS[en.choice("marker", len(COMMENT_MARKERS))]
+            for ch in set(marker):
+                en.assume(f_not(f_contains(body, ch)))
+            lines = ["%s full comment" % marker, "", cat("  ", body, "  %s trailing" % marker), "   ", cat(body, marker, "x")]
+            case = lambda mv: {"kind": "active", "lines": [mv.str(x) for x in lines], "body": mv.str(body), "marker": marker}  # noqa
             en.note_sample(case)
-            out = H.get_active_lines(lines)
+            out = H.get_active_lines(lines) if marker == "#" else H.get_active_lines(lines, marker)
             ok = len(out) == 2
             en.must_hold(ok, "key-value", case, detail="active lines: %d" % len(out))
             if ok:
                 hold_eq(en, out[0], body, "key-value", case, "active line not recovered")
                 hold_eq(en, out[1], body, "key-value", case, "active line not recovered")
+            # the same document as key/value lines
+            kv = H.split_kv_pairs(["%s c = d" % marker, cat("k = ", body, " %s t" % marker)], comment_char=marker)
+            items = list(kv.items())
+            okk = len(items) == 1 and items[0][0] == "k"
+            en.must_hold(okk, "key-value", case, detail="split_kv_pairs with comment marker %r gave %d pairs" % (marker, len(items)))
+            if okk:
+                hold_eq(en, items[0][1], body, "key-value", case, "value not recovered with comment marker %r" % marker)
         elif which == 1:
             a = sstr.fresh_str(en, "a", 1 + en.choice("alen", 2), "ab c")
             b = sstr.fresh_str(en, "b", 1 + en.choice("blen", 2), "ab c")
@@ -394,6 +407,43 @@ def make_ini():
     return fn
 
 
+SECTION_NAMES = ["main", "Main", "default", "Default", "DEFAULTS", "MY_DEFAULT", "xDEFAULTx", "DEFAULT_", "defaults"]
+
+
+def make_ini_sections(k):
+    """section names around the reserved word: only the section spelled exactly DEFAULT supplies defaults and is left out of the section
+    list; every other section - whatever its name contains, in whatever case - is listed, in document order, and answers look-ups"""
+    def fn(en):
+        from insights.tests import context_wrap
+        n = 1 + en.choice("nsections", k)
+        names = []
+        for i in range(n):
+            nm = SECTION_NAMES[en.choice("name%d" % i, len(SECTION_NAMES))]
+            if nm in names:
+                raise core.Abort()
+            names.append(nm)
+        with_default = en.flag("default")
+        dpos = en.choice("default_at", n + 1) if with_default else -1
+        vals = [sstr.fresh_str(en, "sv%d" % i, 1, "ab1") for i in range(n)]
+        lines = []
+        for i, nm in enumerate(names):
+            if i == dpos:
+                lines += ["[DEFAULT]", "dflt = D"]
+            lines += ["[%s]" % nm, cat("opt = ", vals[i])]
+        if dpos == n:
+            lines += ["[DEFAULT]", "dflt = D"]
+        case = lambda mv: {"kind": "ini", "lines": [mv.str(x) for x in lines], "sections": names, "default": with_default}  # noqa
+        en.note_sample(case)
+        ini = IniConfigFile(context_wrap(lines))
+        secs = ini.sections()
+        en.must_hold(all(not isinstance(x, SStr) for x in secs) and list(secs) == names, "ini", case, detail="sections() gives %r for the document's sections %r" % (list(secs), names))
+        for i, nm in enumerate(names):
+            en.must_hold(nm in ini and ini.has_option(nm, "opt"), "ini", case, detail="section [%s] does not answer look-ups" % nm)
+            hold_eq(en, ini.get(nm, "opt"), vals[i], "ini", case, "value of [%s] opt" % nm)
+            en.must_hold(bool(ini.has_option(nm, "dflt")) == with_default, "ini", case, detail="[%s] %s the default option" % (nm, "lacks" if with_default else "has"))
+    return fn
+
+
 def obligations(tier):
     thorough = tier == "thorough"
     enc = [H.get_active_lines, H.split_kv_pairs, H.unsplit_lines, H.optlist_to_dict, H.calc_offset, H.parse_fixed_table, H.parse_delimited_table, H.keyword_search,
@@ -419,6 +469,10 @@ def obligations(tier):
         Obligation("O5-ini", make_ini(), ["ini"], desc="INI document through the real grammar and IniConfigFile: case-insensitive option names, duplicates inside a section and across repeated sections, DEFAULT, comments",
                    bounds={"option name": "e?y / E?Y with ? symbolic in {k,K}", "values": "1 symbolic char", "layouts": "same / different second section, duplicate in section, DEFAULT section, 3 separators"},
                    stubs=stubs, outside=["nested values, hanging values, booleans conversion"], encoded=enc[8:], budget_s=900 if thorough else 200, replay="ini", check_sample=True),
+        Obligation("O5b-ini-section-names", make_ini_sections(3 if thorough else 2), ["ini"],
+                   desc="section names around the reserved word DEFAULT (other case, with affixes): every section but the one spelled exactly DEFAULT is listed in document order, answers look-ups and inherits the defaults",
+                   bounds={"sections": "1-%d distinct names of %r" % (3 if thorough else 2, SECTION_NAMES), "[DEFAULT]": "absent or at any position", "values": "1 symbolic char"},
+                   stubs=stubs, encoded=enc[8:], budget_s=300 if thorough else 100, replay="ini", check_sample=True),
     ]
 
 
@@ -452,8 +506,16 @@ def _native(case):
         if dict(out) != exp or (case["ordered"] and list(out) != list(exp)):
             bad.append("parsed %r expected %r" % (dict(out), exp))
     elif kind == "active":
-        if H.get_active_lines(case["lines"]) != [case["body"], case["body"]]:
-            bad.append("active lines %r" % (H.get_active_lines(case["lines"]),))
+        mk = case.get("marker", "#")
+        try:
+            got = H.get_active_lines(case["lines"], mk)
+            kv = dict(H.split_kv_pairs(["%s c = d" % mk, "k = %s %s t" % (case["body"], mk)], comment_char=mk))
+        except Exception as ex:  # noqa
+            return ["comment marker %r: %r" % (mk, ex)]
+        if got != [case["body"], case["body"]]:
+            bad.append("active lines %r with comment marker %r" % (got, mk))
+        if kv != {"k": case["body"]}:
+            bad.append("split_kv_pairs with comment marker %r gave %r" % (mk, kv))
     elif kind == "unsplit":
         out = list(H.unsplit_lines(case["lines"], keep_cont_char=case["keep"]))
         a, b = case["lines"][0][:-1], case["lines"][1].rstrip()
@@ -496,7 +558,8 @@ def validate(tier):
                  {"kind": "delimited", "delim": ",", "lines": ["H1 , H 2", "a , b c", "d ,"], "headers": ["H1", "H 2"], "rows": [["a", "b c"], ["d", ""]], "lead": False},
                  {"kind": "kv", "lines": ["# c", "a = 1", "  b = x=y # t", "a = 2"], "pairs": [["a", "1"], ["b", "x=y"], ["a", "2"]], "split_on": "=", "partition": False, "ordered": True},
                  {"kind": "search", "rows": [{"NAME": "ab", "dash-key": "x"}, {"NAME": "Ab", "dash-key": "y"}], "terms": [["NAME", "__lower_value", "AB"], ["dash_key", "", "y"]]},
-                 {"kind": "ini", "lines": ["[main]", "eky = a", "EKY = b", "[other]", "eKy = 1", "plain = P"]}]:
+                 {"kind": "ini", "lines": ["[main]", "eky = a", "EKY = b", "[other]", "eKy = 1", "plain = P"]},
+                 {"kind": "ini", "lines": ["[Main]", "opt = a", "[DEFAULT]", "dflt = D", "[main]", "opt = b"]}]:
         bad = _native(case)
         assert not bad, (case, bad)
         n += 1
